@@ -5,7 +5,7 @@
 namespace yaclib::detail::fiber {
 
 void fiber::SharedMutex::lock() {
-  if (_occupied) {
+  while (_occupied) {
     _exclusive_queue.Wait(NoTimeoutTag{});
   }
   LockHelper();
@@ -20,18 +20,15 @@ bool SharedMutex::try_lock() noexcept {
 }
 
 void SharedMutex::unlock() noexcept {
-  const bool unlock_shared = !_shared_queue.Empty() && (_exclusive_queue.Empty() || GetRandNumber(2) == 0);
   _occupied = false;
-  if (unlock_shared) {
-    _shared_queue.NotifyAll();
-  } else {
-    _exclusive_queue.NotifyOne();
-  }
+  // everybody who may be able to proceed re-checks: all parked readers and one parked writer
+  _shared_queue.NotifyAll();
+  _exclusive_queue.NotifyOne();
 }
 
 void SharedMutex::lock_shared() {
-  if (_occupied && _exclusive_mode) {
-    _exclusive_queue.Wait(NoTimeoutTag{});
+  while (_occupied && _exclusive_mode) {
+    _shared_queue.Wait(NoTimeoutTag{});
   }
   SharedLockHelper();
 }
